@@ -98,14 +98,29 @@ def Trivia.isComment : Trivia → Bool
   | .comment _ => true
   | _ => false
 
+/-- the head of the list is an inline comment (the one `apply_trailing_trivia` keeps on the line) -/
+def headInline : List Trivia → Option (Comment × List Trivia)
+  | .comment c :: rest => if c.inline then some (c, rest) else none
+  | _ => none
+
+def lastIsComment (ts : List Trivia) : Bool :=
+  match ts.getLast? with
+  | some t => t.isComment
+  | none => false
+
+/-- an inline comment followed by line-break markers only -/
+def inlineHeadOnly (ts : List Trivia) : Bool :=
+  match headInline ts with
+  | some (_, rest) => rest.all (· == .linebreak)
+  | none => false
+
 /-- `apply_trailing_trivia` leaves a comment open at the end of its output (no closing line
-    break): the caller must start a new line before writing more code. -/
+    break): the last item is a comment, or the list is an inline comment followed by line-break
+    markers only. The caller must then start a new line before writing more code. -/
 def leavesOpenComment (after : List Trivia) : Bool :=
-  (match after.getLast? with
-   | some (.comment _) => true
-   | _ => false) ||
-  (match after with
-   | .comment c :: rest => c.inline && rest.all (· == .linebreak)
-   | _ => false)
+  lastIsComment after || inlineHeadOnly after
+
+/-- `"\n" + s` unless `s` is empty -/
+def nlBlock (s : Text) : Text := if s.isEmpty then [] else '\n' :: s
 
 end Nima
